@@ -87,6 +87,22 @@ pub fn c06(ctx: &mut Ctx, tier: &str, seed: u64) {
         let (pa, pb) = (UnixPath::new(&a), UnixPath::new(&b));
         let (qa, qb) = (sp(&a), sp(&b));
         ctx.evals += 1;
+        // the same verdict from every mixed-kind pairing (borrowed / owned / Cow, either side), as std gives
+        {
+            use std::borrow::Cow;
+            let (xa, xb) = (pa.to_path_buf(), pb.to_path_buf());
+            let (ca, cb): (Cow<UnixPath>, Cow<UnixPath>) = (Cow::Borrowed(pa), Cow::Owned(xb.clone()));
+            let want = qa == qb;
+            let got = [*pa == xb, xb == *pa, pa == xb, xb == pa, xa == *pb, *pb == xa, xa == pb, pb == xa, ca == *pb, *pb == ca, ca == pb, pb == ca, ca == xb, xb == ca, xa == cb, cb == xa, *pa == cb, cb == *pa];
+            if got.iter().any(|g| *g != want) {
+                ctx.fail("mixed-eq-vs-std", None, format!("rel u {} {}", hex(&a), hex(&b)), format!("std {} impl {:?}", want, got));
+            }
+            let wantc = Some(qa.cmp(qb));
+            let gotc = [pa.partial_cmp(&xb), xa.partial_cmp(pb), PartialOrd::partial_cmp(&ca, pb), PartialOrd::partial_cmp(&xa, &cb)];
+            if gotc.iter().any(|g| *g != wantc) || xb.partial_cmp(&pa) != wantc.map(|o| o.reverse()) {
+                ctx.fail("mixed-cmp-vs-std", None, format!("rel u {} {}", hex(&a), hex(&b)), format!("std {:?} impl {:?}", wantc, gotc));
+            }
+        }
         if (pa == pb) != (qa == qb) || pa.cmp(pb) != qa.cmp(qb) {
             ctx.fail("eq-cmp-vs-std", None, format!("rel u {} {}", hex(&a), hex(&b)), format!("impl eq {} cmp {:?}; std eq {} cmp {:?}", pa == pb, pa.cmp(pb), qa == qb, qa.cmp(qb)));
         }
@@ -208,6 +224,29 @@ pub fn c07(ctx: &mut Ctx, tier: &str, seed: u64) {
                         let c1: $B = pieces.clone().into_iter().collect();
                         let c2: $B = std::iter::once(pieces[0]).chain(pieces[1..].iter().cloned().filter(|_| true)).collect();
                         let c3: $B = std::iter::successors(Some(0usize), |i| if *i + 1 < pieces.len() { Some(*i + 1) } else { None }).map(|i| pieces[i]).collect();
+                        // an iterator that is NOT fused: None after the second piece, then more pieces.  `extend` and
+                        // `collect` take what comes before the first None and leave the rest in the source
+                        let script: Vec<Option<usize>> = vec![Some(0), Some(1), None, Some(2), None, Some(3)];
+                        let mut pos = 0usize;
+                        let mut src = std::iter::from_fn(|| { pos += 1; script.get(pos - 1).cloned().flatten().map(|i| pieces[i]) });
+                        let mut e6: $B = <$B>::from($start);
+                        e6.extend(&mut src);
+                        let c6: $B = (&mut src).collect();
+                        let rest: Vec<_> = (&mut src).collect();
+                        let want6 = by_push!($B, $start, pieces[..2].iter().cloned());
+                        let want6c = by_push!($B, "", pieces[2..3].iter().cloned());
+                        if e6 != want6 || format!("{:?}", e6) != format!("{:?}", want6) || c6 != want6c || format!("{:?}", c6) != format!("{:?}", want6c) || rest.len() != 1 {
+                            bad.get_or_insert("non-fused iterator");
+                        }
+                        // an iterator whose FIRST answer is None
+                        let mut pos0 = 0usize;
+                        let script0: Vec<Option<usize>> = vec![None, Some(0), Some(1)];
+                        let mut src0 = std::iter::from_fn(|| { pos0 += 1; script0.get(pos0 - 1).cloned().flatten().map(|i| pieces[i]) });
+                        let c7: $B = (&mut src0).collect();
+                        let left: Vec<_> = (&mut src0).collect();
+                        if format!("{:?}", c7) != format!("{:?}", by_push!($B, "", pieces[..0].iter().cloned())) || left.len() != 2 {
+                            bad.get_or_insert("iterator starting with None");
+                        }
                         for (nm, got, w) in [("extend(exact)", &e1, &want), ("extend(filter)", &e2, &want), ("extend(once+filter)", &e3, &want), ("extend(successors)", &e4, &want), ("extend(from_fn)", &e5, &want),
                                              ("collect(exact)", &c1, &want_c), ("collect(once+filter)", &c2, &want_c), ("collect(successors)", &c3, &want_c)] {
                             if got != w || format!("{:?}", got) != format!("{:?}", w) {
@@ -235,11 +274,15 @@ pub fn c07(ctx: &mut Ctx, tier: &str, seed: u64) {
 pub fn c08(ctx: &mut Ctx, tier: &str, seed: u64) {
     let bases = gen::bases(true, tier, seed);
     let args = dom_args(true, tier, seed);
-    for a in &bases {
+    let keep = cross_keep(tier, bases.len(), args.len(), 300, 150);
+    for (ai, a) in bases.iter().enumerate() {
         let wa = well_formed(true, a);
         let ca = spec_comps(true, a);
         let da = spec::win_decomp(a);
-        for b in &args {
+        for (bi, b) in args.iter().enumerate() {
+            if !keep(ai, bi) {
+                continue;
+            }
             let rp = format!("push w {} {}", hex(a), hex(b));
             at(rp.clone());
             let got = push_b(true, a, b);
